@@ -211,6 +211,30 @@ def run(repo, res, tier):
             sens[(r["fn"], r["container"])] = r
     except FileNotFoundError:
         pass
+    hashord_rule(res, it_sites, random_uses, sens)
+    res.engines["M"]["hash_iteration_sites"] = len(it_sites)
+    # container census by class over all locals of reachable functions
+    census = collections.Counter()
+    randoms = collections.Counter()
+    _census(mir, reach, census, randoms, res, ambient, casts, it_sites)
+
+
+def iteration_sites(tier):
+    """(it_sites, random_uses, judged rows) for other properties that share HASHORD"""
+    mir = M.get_mir(tier)
+    reach = mir.reachable(["main::main"])
+    it_sites, random_uses, ambient, casts = RO.scan(mir, reach)
+    sens = {}
+    try:
+        t = tables.load("iter_sites")
+        for r in t.get("site", []):
+            sens[(r["fn"], r["container"])] = r
+    except FileNotFoundError:
+        pass
+    return it_sites, random_uses, sens
+
+
+def hashord_rule(res, it_sites, random_uses, sens):
     # ---- HASHORD
     groups = collections.Counter((s["fn"], s["ty"], s["cls"][0]) for s in it_sites)
     for (fn, ty, cls), n in sorted(groups.items()):
@@ -225,10 +249,9 @@ def run(repo, res, tier):
                 res.advisory(f"hash-container iteration not yet judged in tables/iter_sites.toml: {fn} over {ty}")
     for u in random_uses:
         res.bad("HASHORD", f"HASHORD:{u['fn']}:{u['ty']}:{u['callee'].split('::')[-1]}", f"process-seeded container {u['ty']} passed to {u['callee']} (not a pure lookup)", f"{u['file']}:{u['line']}")
-    res.engines["M"]["hash_iteration_sites"] = len(it_sites)
-    # container census by class over all locals of reachable functions
-    census = collections.Counter()
-    randoms = collections.Counter()
+
+
+def _census(mir, reach, census, randoms, res, ambient, casts, it_sites):
     for p in reach:
         for ty in mir.fns[p].locals:
             for m in re.finditer(r"(?:hashbrown|std::collections)::Hash(?:Map|Set)<", ty):
